@@ -4,6 +4,7 @@ package c08
 
 import (
 	"bytes"
+	"time"
 
 	"go.nanomsg.org/mangos/v3"
 
@@ -34,6 +35,56 @@ func c08Late(c *mon.Case, sp c08Spec) {
 	}
 	if !hx.WaitAttached(c, w, nz+1, "bus peers") {
 		return
+	}
+	// first: two messages from X; the application scribbles over the first one's header (it owns that
+	// message) and frees it, then re-sends the second unchanged: that still goes to everyone but X
+	{
+		b1, b2 := []byte("scribble-"+hx.Uniq("m")), []byte("keep-"+hx.Uniq("m"))
+		x.Inject(b1)
+		x.Inject(b2)
+		var ms [2]*mangos.Message
+		for i := range ms {
+			rk := mon.Go("RecvMsg", func() (interface{}, error) { return s.RecvMsg() })
+			if !c.AwaitOrViolate("bus/late/recv-stuck", "the forwarder receiving X's messages", rk.Done, mon.AwaitOpts{}) {
+				return
+			}
+			v, err, _ := rk.Result()
+			if err != nil {
+				c.Inconclusive("RecvMsg: %v", err)
+				return
+			}
+			ms[i] = v.(*mangos.Message)
+		}
+		for i := range ms[0].Header {
+			ms[0].Header[i] = 0xEE
+		}
+		ms[0].Free()
+		xBefore := x.SentCount()
+		sk := mon.Go("SendMsg", func() (interface{}, error) { return nil, s.SendMsg(ms[1]) })
+		if !c.AwaitOrViolate("bus/late/send-stuck", "re-sending X's second message", sk.Done, mon.AwaitOpts{}) {
+			return
+		}
+		if !c.AwaitOrViolate("bus/late/missing", "the re-sent message reaching every peer but its source", func() bool {
+			for _, z := range zs {
+				found := false
+				for _, t := range z.SentLog() {
+					if bytes.Equal(t.Body, b2) {
+						found = true
+					}
+				}
+				if !found {
+					return false
+				}
+			}
+			return true
+		}, mon.AwaitOpts{}) {
+			return
+		}
+		mon.Sleep(time.Millisecond)
+		if x.SentCount() != xBefore {
+			c.Violate("bus/late/echo-to-sender", "after the application overwrote the header of ANOTHER message from the same peer, a re-sent message went back to the peer it came from")
+			return
+		}
 	}
 	rounds := 3 + c.Rand.Intn(4)
 	for r := 0; r < rounds && !c.Failed(); r++ {
